@@ -1,6 +1,8 @@
 '''C19 Quilt and Batch are faithful views over the Frames they hold.'''
 from sfa.report import Ctx
+from sfa.rules import quiltrules
 from sfa.rules import recache
+from sfa.rules import resolve
 from sfa.rules import table
 
 LEVEL_TEXT = (
@@ -8,12 +10,12 @@ LEVEL_TEXT = (
     '(_index, _columns, _axis_map, _axis_opposite) is dominated by the _assign_axis guard on every path; '
     '(b) every Batch method that forwards through _apply_attr names the Frame attribute it is named after, forwards '
     'every own parameter under the same name and passes no keyword the Frame method lacks (34 forwards); '
-    '(c) Batch._derive propagates config / max_workers / chunksize / use_threads. Not decided: the axis-map '
-    'translation of keys to per-Frame selections.')
+    '(c) Batch._derive propagates config / max_workers / chunksize / use_threads; (d) per path of Quilt._extract / _extract_array (symbolic store): the axis-map mask is set from the key of the Quilt axis, each Bus Frame is cut with its slice of that mask on the Quilt axis and the caller\'s other key on the opposite axis, parts are joined along self._axis through Frame.from_concat / concat_resolved (never a bare np.concatenate: F2), retained Bus labels are added on the Quilt axis. Not decided: '
+    'the contents of the axis map itself; window arithmetic.')
 
 CLAIM = dict(
     text=LEVEL_TEXT,
-    technique='lazy-slot guard dominance (dataflow) + declarative forward-table extraction and comparison',
+    technique='lazy-slot guard dominance (dataflow) + per-path symbolic-store provenance of the per-Frame cut + declarative forward-table extraction and comparison',
     design_ref='DESIGN.md section 2.B, 2.G and section 3 C19',
 )
 
@@ -22,3 +24,5 @@ def run(ctx: Ctx) -> None:
     recache.check(ctx, 'Quilt', floor_reads=25)
     table.t7_batch(ctx)
     table.t9_derive(ctx, which=('Batch',))
+    quiltrules.axis_routing(ctx)
+    resolve.f2_concatenations(ctx)
